@@ -164,6 +164,11 @@ class Run:
         return False
 
     def check_interp_clean(self, I, label=''):
+        hv = I.stats.get('havoc') or {}
+        new = {k: v for k, v in hv.items() if k not in getattr(self, '_havoc_seen', {})}
+        if new:
+            self._havoc_seen = dict(hv)
+            self.inconclusive.append(f'{label}: calls without a model were havoc\'d (results on those paths are not trusted): ' + ', '.join(sorted(new))[:400])
         st = I.stats.get('stuck')
         if st:
             kinds = sorted(set(f'{a} @ {b}:{c}' for a, b, c in st))
